@@ -47,6 +47,7 @@ func addSpecialModules(mm *tengo.ModuleMap, pc *progCase) {
 		mm.AddBuiltinModule("st", map[string]tengo.Object{
 			"counter": &tengo.Map{Value: map[string]tengo.Object{"n": &tengo.Int{Value: 0}}},
 			"log":     &tengo.Array{Value: []tengo.Object{}},
+			"flags":   &tengo.Array{Value: []tengo.Object{tengo.TrueValue, tengo.FalseValue, tengo.UndefinedValue}},
 			"step":    &tengo.Int{Value: 1},
 		})
 	}
